@@ -1043,8 +1043,12 @@ def run_workload(plan, srcs, fault=None, interrupt=None, twin=None,
         if int_holder and int_holder[0].frame_line is not None:
             on_with_header = (
                 int_holder[0].frame_line.lstrip().startswith("with ")
-                or int_holder[0].frame_func in (
-                    "__init__", "__enter__", "__new__", "open"))
+                or any(fn in (
+                    "__init__", "__enter__", "__new__", "open",
+                    # ... or already RELEASING it (a context manager written
+                    # in Python cannot protect its own __exit__ / close)
+                    "__exit__", "close", "__del__")
+                    for fn in int_holder[0].frame_stack))
         if kept_exc and kindf != "crash" and op["op"] == "csv" \
                 and not on_with_header:
             import gc
